@@ -20,9 +20,9 @@ package scan
 //@   ensures memo_inv-kept: !it.failed ==> memo_inv(it.sn, it.sT, it.cur, it.hasPrev, it.lastSeek, it.delta) && it.lastSeek == ts-offset
 //@   ensures[C02] j-is-latest-at-or-before-ref: result3 == nil ==> -1 <= selJ && selJ < it.sn &&
 //@       (selJ >= 0 ==> it.sT[selJ] <= ts-offset) && (forall k in 0..it.sn :: it.sT[k] <= ts-offset ==> k <= selJ)
-//@   ensures[C02] present-iff-within-lookback-and-not-stale: result3 == nil ==>
+//@   ensures[C01,C02] present-iff-within-lookback-and-not-stale: result3 == nil ==>
 //@       (result2 <==> selJ >= 0 && it.sT[selJ] >= ts-offset-lookbackDelta && !isstale(it.sV[selJ]))
-//@   ensures[C02] selected-sample: result3 == nil && result2 ==> result0 == it.sT[selJ] && result1 == it.sV[selJ]
+//@   ensures[C01,C02] selected-sample: result3 == nil && result2 ==> result0 == it.sT[selJ] && result1 == it.sV[selJ]
 //@   ensures[C16] within-hinted-range: result2 ==> ts-offset-lookbackDelta <= result0 && result0 <= ts-offset
 //@   ensures[C18,C19] never-stale: result2 ==> !isstale(result1)
 
@@ -138,14 +138,14 @@ package scan
 //@   ensures result-reuses-the-carried-buffer-or-is-new: result1 == nil ==> ref(result0) == ref(out) || fresh(result0)
 //@   ensures iterator-stays-usable: result1 == nil ==> buf_inv(it.bn, it.bT, it.bcur, it.blo, it.blastSeek, it.bdelta) && it.blastSeek == maxt && it.bdelta == old(it.bdelta)
 //@   ensures[C03,C19] no-staleness-marker-in-window: result1 == nil ==> forall p in 0..len(result0) :: !isstale(result0[p].V)
-//@   ensures[C03] points-inside-window: result1 == nil ==> forall p in 0..len(result0) :: old(mint) <= result0[p].T && result0[p].T <= maxt
-//@   ensures[C03,C07] points-are-series-samples: result1 == nil ==> winSound(result0, it)
-//@   ensures[C03,C07] points-in-series-order: result1 == nil ==> winInc(result0, it)
-//@   ensures[C03,C07] no-window-sample-before-the-first-point: result1 == nil ==> gapHead(result0, it, old(mint))
-//@   ensures[C03,C07] no-window-sample-between-two-points: result1 == nil ==> gapMid(result0, it)
-//@   ensures[C03,C07] no-window-sample-after-the-last-point: result1 == nil ==> gapTail(result0, it, it.bn, maxt)
-//@   ensures[C03,C07] empty-only-if-window-has-no-sample: result1 == nil ==> gapNone(result0, it, it.bn, old(mint), maxt)
-//@   ensures[C03,C07] window-recorded: result1 == nil ==> it.wlo == old(mint) && it.whi == maxt
+//@   ensures[C01,C03] points-inside-window: result1 == nil ==> forall p in 0..len(result0) :: old(mint) <= result0[p].T && result0[p].T <= maxt
+//@   ensures[C01,C03,C07] points-are-series-samples: result1 == nil ==> winSound(result0, it)
+//@   ensures[C01,C03,C07] points-in-series-order: result1 == nil ==> winInc(result0, it)
+//@   ensures[C01,C03,C07] no-window-sample-before-the-first-point: result1 == nil ==> gapHead(result0, it, old(mint))
+//@   ensures[C01,C03,C07] no-window-sample-between-two-points: result1 == nil ==> gapMid(result0, it)
+//@   ensures[C01,C03,C07] no-window-sample-after-the-last-point: result1 == nil ==> gapTail(result0, it, it.bn, maxt)
+//@   ensures[C01,C03,C07] empty-only-if-window-has-no-sample: result1 == nil ==> gapNone(result0, it, it.bn, old(mint), maxt)
+//@   ensures[C01,C03,C07] window-recorded: result1 == nil ==> it.wlo == old(mint) && it.whi == maxt
 //@   loop 0 invariant 0 <= drop && drop < len(out) && (forall p in 0..drop :: out[p].T < mint) && mint == m0
 //@   loop 0 invariant head-so-far: forall j in 0..it.pidx[drop] :: it.bT[j] < mint || isstale(it.bV[j])
 //@   at line "out = out[:len(out)-drop]" assert kept-points-shifted: forall p in 0..len(out)-drop :: 0 <= it.pidx[p] && it.pidx[p] < it.bn &&
